@@ -39,6 +39,10 @@ type tracer struct {
 	// hook, when set, is called at EVERY dependency call (counted or not, tracing or not) from inside the executing
 	// function: the concurrency harness uses it to look at the function's lock from within the execution
 	hook func(letter byte)
+	// alias: the accounts of this world keep the value slices they are GIVEN and hand out the slices they HOLD (as the
+	// repository's own mock.Account does) instead of copying on both sides: code that mutates a retrieved value in
+	// place, or keeps a slice it has saved, then changes stored state behind the world's back (C13)
+	alias bool
 }
 
 func newTracer() *tracer {
